@@ -4,6 +4,7 @@ import (
 	"context"
 	"fmt"
 	"reflect"
+	"sync"
 
 	"github.com/arr-ai/frozen"
 	"github.com/arr-ai/hash"
@@ -239,13 +240,22 @@ func (s GenericSet) Map(f func(v Value) (Value, error)) (Set, error) {
 
 // Where returns a new genericSet with all the Values satisfying predicate p.
 func (s GenericSet) Where(p func(v Value) (bool, error)) (_ Set, err error) {
+	// frozen may call the predicate from several goroutines.
+	var mu sync.Mutex
 	set := s.set.Where(func(elem Value) bool {
-		if err != nil {
+		mu.Lock()
+		failed := err != nil
+		mu.Unlock()
+		if failed {
 			return false
 		}
 		match, err2 := p(elem)
 		if err2 != nil {
-			err = err2
+			mu.Lock()
+			if err == nil {
+				err = err2
+			}
+			mu.Unlock()
 			return false
 		}
 		return match
